@@ -1,5 +1,6 @@
 pub mod app;
 pub mod ops;
+pub mod proj;
 pub mod script;
 pub mod sim;
 pub mod toycrypto;
